@@ -39,3 +39,130 @@ Lemma f11_refuted :
   In (EvResume 0 1 (CTempo 0) (1#2) (7#8)) (n_log (nrt_run as_found f11_prog 10)) /\
   In (EvResume 0 1 (CTempo 0) (5#16) (1#2)) (n_log (nrt_run repaired f11_prog 10)).
 Proof. vm_compute. repeat split; tauto. Qed.
+
+(* ---- one wake-up, any state: the re-scheduling law ------------------------------------------- *)
+Definition wf_tc (t : tclock) : Prop := ~ t_tempo t == 0 /\ t_bdur t * t_tempo t == 1.
+Definition wf_tcs (tcs : list tclock) : Prop := Forall wf_tc tcs.
+
+Lemma tc_roundtrip_b t b : wf_tc t -> tc_s2b t (tc_b2s t b) == b.
+Proof.
+  intros [_ H]. unfold tc_s2b, tc_b2s.
+  setoid_replace ((b - t_bbeats t) * t_bdur t + t_bsecs t - t_bsecs t) with ((b - t_bbeats t) * t_bdur t) by ring.
+  setoid_replace ((b - t_bbeats t) * t_bdur t * t_tempo t) with ((b - t_bbeats t) * (t_bdur t * t_tempo t)) by ring.
+  rewrite H. ring.
+Qed.
+Lemma tc_roundtrip_s t s : wf_tc t -> tc_b2s t (tc_s2b t s) == s.
+Proof.
+  intros [_ H]. unfold tc_s2b, tc_b2s.
+  setoid_replace ((s - t_bsecs t) * t_tempo t + t_bbeats t - t_bbeats t) with ((s - t_bsecs t) * t_tempo t) by ring.
+  setoid_replace ((s - t_bsecs t) * t_tempo t * t_bdur t) with ((s - t_bsecs t) * (t_bdur t * t_tempo t)) by ring.
+  rewrite H. ring.
+Qed.
+Lemma s2b_b2s tcs c b : wf_tcs tcs -> s2b tcs c (b2s tcs c b) == b.
+Proof.
+  intros W. destruct c as [| |i]; simpl; try reflexivity.
+  destruct (nth_error tcs i) as [t|] eqn:E; [|reflexivity].
+  apply tc_roundtrip_b. unfold wf_tcs in W. rewrite Forall_forall in W. apply W. eapply nth_error_In; eauto.
+Qed.
+Lemma b2s_s2b tcs c s : wf_tcs tcs -> b2s tcs c (s2b tcs c s) == s.
+Proof.
+  intros W. destruct c as [| |i]; simpl; try reflexivity.
+  destruct (nth_error tcs i) as [t|] eqn:E; [|reflexivity].
+  apply tc_roundtrip_s. unfold wf_tcs in W. rewrite Forall_forall in W. apply W. eapply nth_error_In; eauto.
+Qed.
+Lemma s2b_comp tcs c x y : x == y -> s2b tcs c x == s2b tcs c y.
+Proof.
+  intros H. destruct c as [| |i]; simpl; auto. destruct (nth_error tcs i); auto. unfold tc_s2b. rewrite H. reflexivity.
+Qed.
+Lemma tc_new_wf tempo now : wf_tc (tc_new tempo now).
+Proof.
+  unfold tc_new, wf_tc. simpl. destruct (Qeq_bool tempo 0) eqn:E; simpl.
+  - split; [discriminate|reflexivity].
+  - assert (~ tempo == 0) by (intros G; apply Qeq_bool_iff in G; congruence). split; auto. field. auto.
+Qed.
+
+(* RT: the wake-up of a task does not even take the physical time as an argument; the routine
+   observes T = beats2secs(key), clock.beats = key, and if it yields d it is queued at key + d. *)
+Lemma rt_wake_observes off p st e r :
+  nth_error (n_routs st) (e_rid e) = Some r -> wf_tcs (n_tcs st) ->
+  exists beats, In (EvResume (e_rid e) (r_k r) (e_clock e) (Qred (b2s (n_tcs st) (e_clock e) (e_time e))) beats)
+                   (n_log (rt_wake off p st e))
+                /\ beats == e_time e.
+Proof.
+  intros Hr W. unfold rt_wake. rewrite Hr.
+  set (T := Qred (b2s (n_tcs st) (e_clock e) (e_time e))).
+  set (beats := Qred (s2b (n_tcs (set_mtime st T)) (e_clock e) T)).
+  set (st1 := add_log (set_mtime st T) (EvResume (e_rid e) (r_k r) (e_clock e) T beats)).
+  destruct (run_acts (Some off) repaired p st1 (Some (e_rid e, r_k r)) T (e_clock e) (r_rest r)) as [st2 oc] eqn:E.
+  pose proof (run_acts_log_ext _ _ _ _ _ _ _ _ _ _ E) as (new & Hlog & _).
+  exists beats. split.
+  - assert (Hin : In (EvResume (e_rid e) (r_k r) (e_clock e) T beats) (n_log st2)).
+    { rewrite Hlog. apply in_or_app. right. simpl. auto. }
+    destruct oc; simpl; auto.
+  - unfold beats. rewrite Qred_correct. simpl n_tcs. unfold T.
+    rewrite (s2b_comp _ _ _ _ (Qred_correct _)). apply s2b_b2s. exact W.
+Qed.
+
+Lemma rt_wake_resched off p st e r st2 d rest :
+  nth_error (n_routs st) (e_rid e) = Some r ->
+  let T := Qred (b2s (n_tcs st) (e_clock e) (e_time e)) in
+  run_acts (Some off) repaired p
+    (add_log (set_mtime st T) (EvResume (e_rid e) (r_k r) (e_clock e) T (Qred (s2b (n_tcs st) (e_clock e) T))))
+    (Some (e_rid e, r_k r)) T (e_clock e) (r_rest r) = (st2, OYield d rest) ->
+  yields (r_rest r) = d :: yields rest /\
+  exists e', In e' (n_q (rt_wake off p st e)) /\ e_rid e' = e_rid e /\ e_clock e' = e_clock e /\
+             e_time e' == e_time e + d.
+Proof.
+  intros Hr T E. split; [apply (run_acts_yield _ _ _ _ _ _ _ _ _ _ _ E)|].
+  unfold rt_wake. rewrite Hr. fold T. simpl n_tcs. rewrite E.
+  eexists. split; [unfold push; cbn [n_q]; apply kinsert_in; left; reflexivity|].
+  split; [reflexivity|]. split; [reflexivity|]. cbn [e_time]. apply Qred_correct.
+Qed.
+
+(* NRT counterpart: the routine observes the time of its ClockTask and, if it yields d, is queued
+   at beats2secs(beats + d) under the tempo map of that moment *)
+Lemma nrt_wake_resched qk p st e r st2 d rest :
+  nth_error (n_routs st) (e_rid e) = Some r ->
+  let T := e_time e in
+  let beats := Qred (s2b (n_tcs st) (e_clock e) T) in
+  run_acts None qk p (add_log (set_mtime st T) (EvResume (e_rid e) (r_k r) (e_clock e) T beats))
+    (Some (e_rid e, r_k r)) T (e_clock e) (r_rest r) = (st2, OYield d rest) ->
+  yields (r_rest r) = d :: yields rest /\
+  exists e', In e' (n_q (nrt_wake qk p st e)) /\ e_rid e' = e_rid e /\ e_clock e' = e_clock e /\
+             e_beats e' == beats + d /\ e_time e' == b2s (n_tcs st2) (e_clock e) (beats + d).
+Proof.
+  intros Hr T beats E. split; [apply (run_acts_yield _ _ _ _ _ _ _ _ _ _ _ E)|].
+  unfold nrt_wake. simpl n_routs. rewrite Hr. simpl n_tcs. fold T. fold beats. rewrite E.
+  eexists. split; [unfold push; cbn [n_q]; apply kinsert_in; left; reflexivity|].
+  split; [reflexivity|]. split; [reflexivity|]. cbn [e_time e_beats]. split; apply Qred_correct.
+Qed.
+
+Lemma b2s_comp tcs c x y : x == y -> b2s tcs c x == b2s tcs c y.
+Proof.
+  intros H. destruct c as [| |i]; simpl; auto. destruct (nth_error tcs i); auto. unfold tc_b2s. rewrite H. reflexivity.
+Qed.
+(* play(): the new task is due at the caller's logical time T, on any clock *)
+Lemma play_due_at_parent_time qk st T c rid : qk_app_abs qk = false -> wf_tcs (n_tcs st) ->
+  exists e, In e (n_q (nrt_sched_play None qk st T c rid)) /\ e_rid e = rid /\ e_clock e = c /\ e_time e == T.
+Proof.
+  intros Hq W. unfold nrt_sched_play. rewrite Hq.
+  eexists. split; [unfold push; cbn [n_q]; apply kinsert_in; left; reflexivity|].
+  split; [reflexivity|]. split; [reflexivity|]. cbn [e_time]. rewrite Qred_correct.
+  destruct c as [| |i].
+  - simpl. ring.
+  - simpl. ring.
+  - assert (E : s2b (n_tcs st) (CTempo i) T + 0 == s2b (n_tcs st) (CTempo i) T) by ring.
+    rewrite (b2s_comp _ _ _ _ E). apply b2s_s2b. exact W.
+Qed.
+Lemma play_due_at_parent_time_rt off st T c rid : c <> CApp -> wf_tcs (n_tcs st) ->
+  exists e, In e (n_q (nrt_sched_play (Some off) repaired st T c rid)) /\ e_rid e = rid /\ e_clock e = c /\
+            b2s (n_tcs st) c (e_time e) == T.
+Proof.
+  intros Hc W. unfold nrt_sched_play.
+  eexists. split; [unfold push; cbn [n_q]; apply kinsert_in; left; reflexivity|].
+  split; [reflexivity|]. split; [reflexivity|]. cbn [e_time].
+  destruct c as [| |i]; [|congruence|].
+  - unfold b2s. rewrite Qred_correct. ring.
+  - assert (E : Qred (s2b (n_tcs st) (CTempo i) T + 0) == s2b (n_tcs st) (CTempo i) T) by (rewrite Qred_correct; ring).
+    rewrite (b2s_comp _ _ _ _ E). apply b2s_s2b. exact W.
+Qed.
